@@ -700,6 +700,34 @@ func fF1F3(p *Prog, o *obls, fn *ssa.Function) {
 				}
 				return
 			}
+			// F3c: s[:n] with n a count taken from a received packet: n is the peer's claim, len(s) is what was actually
+			// unpacked — a report announcing more statuses than its chunks carry re-slices past the capacity
+			if x.High != nil {
+				if _, hc := constInt(x.High); !hc {
+					if _, lowC := constInt(x.Low); x.Low == nil || lowC {
+						if w := packetDerivedLength(p, x.High); w != "" {
+							hi := x.High
+							isHi := func(v ssa.Value) bool { return v == hi || p.pureKey(v) == p.pureKey(hi) }
+							isLenOrCap := func(v ssa.Value) bool {
+								c, ok := v.(*ssa.Call)
+								if !ok {
+									return false
+								}
+								b := builtinName(&c.Call)
+								return (b == "len" || b == "cap") && p.pureKey(c.Call.Args[0]) == baseKey
+							}
+							if g, gw := p.guardedBy(x, isHi, isLenOrCap); g {
+								o.ok("F3", construct, p.instrPos(x), "packet-derived upper bound guarded by "+gw)
+							} else if ms, isMS := p.origin(x.X).(*ssa.MakeSlice); isMS && (p.pureKey(ms.Len) == p.pureKey(hi) || ms.Cap != nil && p.pureKey(ms.Cap) == p.pureKey(hi)) {
+								o.ok("F3", construct, p.instrPos(x), "the slice was made with this very length")
+							} else {
+								o.bad("F3", construct, p.instrPos(x), "the upper bound is "+w+" and nothing compares it with the length of the slice it cuts: a packet that announces more entries than it carries re-slices past the capacity and panics")
+							}
+							return
+						}
+					}
+				}
+			}
 			// F3: both bounds non-constant and from different sources
 			if x.Low == nil || x.High == nil {
 				return
